@@ -2019,6 +2019,12 @@ class Cluster(object):
                     if pool_state:
                         connected |= pool_state['open_count'] > 0
                 if connected:
+                    # the host stays up; a session whose own pool to it could not be (re)created
+                    # has no reconnector to rely on, so have the sessions check their pools again
+                    delay = next(iter(self.reconnection_policy.new_schedule()), None)
+                    if delay is not None:
+                        for session in tuple(self.sessions):
+                            self.scheduler.schedule_unique(delay, session.update_created_pools)
                     return
 
             host.set_down()
